@@ -1419,3 +1419,35 @@ def shared_state_rule(e, rep, rule, module_prefixes, consequence):
     elif not seen:
         rep.ok(rule, ', '.join(module_prefixes), 'no instance state lives in '
                'a class-level mutable', reason='%d classes looked at' % n)
+
+
+def assigned_from(g, call_ast):
+    """[(local path, stmt node)] of the locals that receive the value of the
+    call expression `call_ast`: `x = <call>`, or - when the call sits in a
+    return of an inlined helper - the target (or the element of a tuple
+    target) of the assignment that takes the helper's result"""
+    import ast as _ast
+    from ..facts import path_of
+    out = []
+    for s2 in g.of_kind('stmt'):
+        if not (isinstance(s2.ast, _ast.Assign) and len(s2.ast.targets) == 1):
+            continue
+        tg, v = s2.ast.targets[0], s2.ast.value
+        if v is call_ast and isinstance(tg, _ast.Name):
+            out.append((path_of(tg, s2.frame), s2))
+            continue
+        if not isinstance(v, _ast.Call):
+            continue
+        vals = values_of(g, v, s2.frame)
+        if len(vals) == 1 and vals[0][0] is v:
+            continue
+        for rv, rf in vals:
+            if rv is call_ast and isinstance(tg, _ast.Name):
+                out.append((path_of(tg, s2.frame), s2))
+            elif isinstance(rv, _ast.Tuple) and \
+                    isinstance(tg, (_ast.Tuple, _ast.List)) and \
+                    len(rv.elts) == len(tg.elts):
+                for a, b in zip(tg.elts, rv.elts):
+                    if b is call_ast and isinstance(a, _ast.Name):
+                        out.append((path_of(a, s2.frame), s2))
+    return out
